@@ -24,8 +24,12 @@ def run(cmd, cwd=None, timeout=1800):
     p = subprocess.run(cmd, cwd=cwd, env=env, capture_output=True, text=True, timeout=timeout, shell=isinstance(cmd, str))
     return p.returncode, p.stdout + p.stderr
 out = {'tag': tag, 'property': pid}
-wt = '/tmp/alt-' + tag + '/repo'
-os.makedirs('/tmp/alt-' + tag, exist_ok=True)
+# a small fixed set of scratch directories (slots): every distinct directory adds a full set of entries to the Go
+# build cache, which filled the disk when each tag had a directory of its own
+slot = os.environ.get('ALT_SLOT', '0')
+base = '/tmp/altslot-' + slot
+wt = base + '/repo'
+os.makedirs(base, exist_ok=True)
 run(['git', '-C', '/repo', 'worktree', 'remove', '--force', wt])
 rc, o = run(['git', '-C', '/repo', 'worktree', 'add', '--detach', wt, 'HEAD'])
 assert rc == 0, o
@@ -70,9 +74,7 @@ try:
             results[c] = {'exit': rc, 'wall_s': round(time.time() - t0, 1), 'summary': lines[:8], 'detail': o[-1500:] if rc != 0 else ''}
 finally:
     run(['git', '-C', '/repo', 'worktree', 'remove', '--force', wt])
-    shutil.rmtree('/tmp/alt-' + tag, ignore_errors=True)
-    import hashlib
-    shutil.rmtree('/verif/work/bin-' + hashlib.sha1(wt.encode()).hexdigest()[:10], ignore_errors=True)
+    shutil.rmtree(wt, ignore_errors=True)
 out['checks_' + tier] = results
 dst = '/verif/seeded/' + tag
 os.makedirs(dst, exist_ok=True)
